@@ -79,6 +79,9 @@ func runC19(run *common.Run) {
 	if run.WantSub("runctx") && !run.TooMany() {
 		c19RunCtx(run)
 	}
+	if run.WantSub("longhold") && !run.TooMany() {
+		c19LongHold(run)
+	}
 	if run.WantSub("stress") && !run.TooMany() {
 		c19Stress(run)
 	}
@@ -729,4 +732,84 @@ func c19RunCtx(run *common.Run) {
 		run.Count("runctx_rounds", 1)
 		run.Case(common.Hash64("runctx", fmt.Sprint(round)), true)
 	}
+}
+
+// c19LongHold: a key is held for 6.5 s (13 s thorough) of real time while callers whose contexts stay alive wait for it
+// through Lock and through Run. Lock may return false only because the caller's context ended: each waiter must get
+// the key after the release (Lock true; Run executes its callback exactly once and returns its result), however long
+// the hold lasted. The hold is real time on purpose - an internal bound on the wait can only be met by waiting.
+func c19LongHold(run *common.Run) {
+	if !run.Want("longhold", 0) {
+		return
+	}
+	hold := time.Duration(run.N(6500, 13000)) * time.Millisecond
+	m := gcsutil.NewTransientLockMap()
+	if !m.Lock(context.Background(), "held") {
+		run.Violation("longhold", 0, "Lock of a free key returned false", nil)
+		return
+	}
+	type res struct {
+		kind string
+		ok   bool
+		ran  int32
+		err  error
+		ctxE error
+	}
+	out := make(chan res, 4)
+	var held atomic.Bool
+	held.Store(true)
+	var early atomic.Int32
+	for i, kind := range []string{"Lock(background)", "Lock(deadline in 60 s)", "Run(background)", "Run(deadline in 60 s)"} {
+		go func(i int, kind string) {
+			ctx := context.Background()
+			if i%2 == 1 {
+				var c context.CancelFunc
+				ctx, c = context.WithTimeout(ctx, 60*time.Second)
+				defer c()
+			}
+			r := res{kind: kind}
+			if i < 2 {
+				r.ok = m.Lock(ctx, "held")
+				if r.ok {
+					if held.Load() {
+						early.Add(1)
+					}
+					m.Unlock("held")
+				}
+			} else {
+				r.err = m.Run(ctx, "held", func(context.Context) error {
+					if held.Load() {
+						early.Add(1)
+					}
+					r.ran++
+					return nil
+				})
+				r.ok = r.ran == 1
+			}
+			r.ctxE = ctx.Err()
+			out <- r
+		}(i, kind)
+	}
+	time.Sleep(hold)
+	held.Store(false)
+	m.Unlock("held")
+	for i := 0; i < 4; i++ {
+		select {
+		case r := <-out:
+			run.Count("waiters_of_a_long_hold", 1)
+			if !r.ok && r.ctxE == nil {
+				run.Violation("longhold", i, fmt.Sprintf("%s on a key that was held for %s: the caller's context was still alive (ctx.Err()=nil) but it did not get the key (acquired/ran=%v, Run error=%v)", r.kind, hold, r.ok, r.err), nil)
+			}
+		case <-time.After(30 * time.Second):
+			run.Violation("longhold", i, fmt.Sprintf("a waiter of a key held for %s did not return within 30 s after the release", hold), nil)
+			return
+		}
+	}
+	if n := early.Load(); n != 0 {
+		run.Violation("longhold", 9, fmt.Sprintf("%d waiters entered while the key was still held", n), nil)
+	}
+	if l := m.VerifLen(); l != 0 {
+		run.Violation("longhold", 10, fmt.Sprintf("nobody holds or awaits a lock, but the map retains %d entries", l), nil)
+	}
+	run.Case(common.Hash64("longhold"), true)
 }
